@@ -11,7 +11,7 @@ Require Import KV.Model.Prelude KV.Model.Condensed KV.Model.Active KV.Model.Dend
   KV.Proofs.SortProofs KV.Proofs.OrderOnly KV.Proofs.RelabelWF KV.Proofs.PrimThreshold KV.Proofs.MstPrim KV.Proofs.MstCuts
   KV.Proofs.LWInvariant KV.Model.Chain KV.Proofs.MstWF KV.Proofs.MstTotal KV.Proofs.ChainIter KV.Proofs.ChainInstances
   KV.Model.Generic KV.Model.Primitive KV.Proofs.PrimitiveTotal KV.Proofs.GenericInv KV.Proofs.GenericInstances
-  KV.Proofs.CriteriaRun KV.Proofs.SingleCuts KV.Proofs.SpanningTrees KV.Proofs.MstWeights KV.Proofs.MstWeightsRun.
+  KV.Proofs.CriteriaRun KV.Proofs.SingleCuts KV.Proofs.SpanningTrees KV.Proofs.MstWeights KV.Proofs.MstWeightsRun KV.Proofs.Shape KV.Proofs.AgreeSingle KV.Proofs.SingleReplay.
 From Coq Require Import Relations Permutation.
 
 Set Implicit Arguments.
@@ -398,6 +398,122 @@ Proof.
   rewrite Hd, Hobs, HM01. unfold heights, map_dend. cbn [d_steps]. rewrite map_map.
   change (fun x : step sub => s_dis (map_step g x)) with (fun x : step sub => g (s_dis x)).
   rewrite <- (map_map (@s_dis sub) g (d_steps d1)). apply mst_weights_map; [exact Hnan|exact HW].
+Qed.
+
+(* ---- C06 for Method::Single on the full carrier: any two entry points return the same
+   labelled dendrogram when the heights returned by one are pairwise distinct ---- *)
+Theorem single_same_dendrogram_carrier (p : profile) (a1 a2 : algo) s1 d1 s2 d2 (m : list T) (n : N)
+  sr1 dr1 mr1 sr2 dr2 mr2 M0 :
+  (n < two32)%N ->
+  run_with F p a1 Single s1 d1 m n = Ok (sr1, dr1, mr1) ->
+  run_with F p a2 Single s2 d2 m n = Ok (sr2, dr2, mr2) ->
+  prologue p m n = Ok M0 -> 1 <= m_obs M0 ->
+  Forall (fun v => ok v = true) m ->
+  Forall (fun v => f_ltb F v (f_inf F) = true) m ->
+  strictly F (heights dr1) ->
+  length (d_steps dr1) = length (d_steps dr2)
+  /\ forall i t t', nth_error (d_steps dr1) i = Some t -> nth_error (d_steps dr2) i = Some t' ->
+       s_c1 t = s_c1 t' /\ s_c2 t = s_c2 t' /\ s_size t = s_size t' /\ eqv (f_ltb F) (s_dis t) (s_dis t').
+Proof.
+  intros Hn32 Hrun1 Hrun2 HM0 Hn1 Hok Hfin Hstrict.
+  destruct (lift_list Hok) as (m1 & Hm1).
+  assert (Hsub : forall a s d sr dr mr, run_with F p a Single s d m n = Ok (sr, dr, mr) ->
+            exists ss ds ms, run_with FS p a Single (st_new sub) (d_new sub 0) m1 n = Ok (ss, ds, ms) /\ dr = map_dend g ds).
+  { intros a s d sr dr mr Hrun.
+    pose proof (@order_only sub T g (fun _ => True) FS F p
+                  (fun x y _ _ => eq_refl) (fun x y _ _ => eq_refl) (conj I eq_refl) (conj I eq_refl)
+                  a Single m1 n (st_new sub) (d_new sub 0) s d (or_introl eq_refl)
+                  ltac:(apply Forall_forall; intros; exact I)) as Hoo.
+    rewrite Hm1, Hrun in Hoo. cbn [out_of] in Hoo.
+    destruct (run_with FS p a Single (st_new sub) (d_new sub 0) m1 n) as [[[ss ds] ms]| |];
+      cbn [out_of map_out] in Hoo; try discriminate.
+    injection Hoo as Hd Hm. exists ss, ds, ms. split; [reflexivity|exact Hd]. }
+  destruct (Hsub a1 s1 d1 sr1 dr1 mr1 Hrun1) as (ss1 & ds1 & ms1 & R1 & ->).
+  destruct (Hsub a2 s2 d2 sr2 dr2 mr2 Hrun2) as (ss2 & ds2 & ms2 & R2 & ->).
+  assert (HM1 : exists M1, prologue p m1 n = Ok M1).
+  { unfold prologue in HM0 |- *. rewrite <- Hm1, map_length in HM0.
+    destruct (shape_check p n (N.of_nat (length m1))) as [q| |]; cbn [bind] in *; try discriminate.
+    destruct (obs_to_nat q) as [q'| |]; cbn [bind] in *; try discriminate. eexists. reflexivity. }
+  destruct HM1 as (M1 & HM1).
+  assert (Hobs : m_obs M0 = m_obs M1).
+  { unfold prologue in HM0, HM1. rewrite <- Hm1, map_length in HM0.
+    destruct (shape_check p n (N.of_nat (length m1))) as [q| |]; cbn [bind] in *; try discriminate.
+    destruct (obs_to_nat q) as [q'| |]; cbn [bind] in *; try discriminate.
+    inversion HM0; inversion HM1; subst. reflexivity. }
+  assert (Hfin1 : Forall (fun v => f_ltb FS v (f_inf FS) = true) m1).
+  { rewrite Forall_forall in Hfin |- *. intros v Hv. apply (Hfin (g v)). rewrite <- Hm1. apply in_map. exact Hv. }
+  assert (Hheights : forall ds : dend sub, heights (map_dend g ds) = map g (heights ds)).
+  { intros ds. unfold heights, map_dend. cbn [d_steps]. rewrite !map_map. reflexivity. }
+  assert (Hstrict1 : strictly FS (heights ds1)).
+  { intros i k a b Hik Ha Hb. apply (Hstrict i k (g a) (g b) Hik); rewrite Hheights, nth_error_map; [rewrite Ha|rewrite Hb]; reflexivity. }
+  destruct (@single_same_dendrogram sub FS p FS_irrefl FS_trans FS_negtrans KS_eqb_nlt FS_eqb_refl a1 a2
+              (st_new sub) (d_new sub 0) (st_new sub) (d_new sub 0) m1 n ss1 ds1 ms1 ss2 ds2 ms2 M1
+              Hn32 R1 R2 HM1 ltac:(lia) Hfin1 Hstrict1) as [HL HS].
+  split; [unfold map_dend; cbn [d_steps]; rewrite !map_length; exact HL|].
+  intros i t t' Ht Ht'. unfold map_dend in Ht, Ht'. cbn [d_steps] in Ht, Ht'. rewrite nth_error_map in Ht, Ht'.
+  destruct (nth_error (d_steps ds1) i) as [t0|] eqn:E0; [|discriminate].
+  destruct (nth_error (d_steps ds2) i) as [t0'|] eqn:E0'; [|discriminate].
+  inversion Ht; inversion Ht'; subst t t'. cbn [map_step s_c1 s_c2 s_size s_dis].
+  exact (HS i t0 t0' E0 E0').
+Qed.
+
+(* ---- C03 for Method::Single on the full carrier, every entry point: replaying the returned
+   steps, no two observations in different current clusters are closer than the merge height;
+   with pairwise distinct heights the height is realised between the two merged clusters ---- *)
+Theorem single_replay_greedy_carrier (p : profile) (a : algo) s d (m : list T) (n : N) s' d' m' M0 :
+  (n < two32)%N ->
+  run_with F p a Single s d m n = Ok (s', d', m') ->
+  prologue p m n = Ok M0 -> 1 <= m_obs M0 ->
+  Forall (fun v => ok v = true) m ->
+  Forall (fun v => f_ltb F v (f_inf F) = true) m ->
+  (forall j t, nth_error (d_steps d') j = Some t ->
+     forall x y, x < m_obs M0 -> y < m_obs M0 ->
+       labi (m_obs M0) (d_steps d') j x <> labi (m_obs M0) (d_steps d') j y ->
+       f_ltb F (dcell KF M0 x y) (s_dis t) = false)
+  /\ (strictly F (heights d') ->
+      forall j t, nth_error (d_steps d') j = Some t ->
+      exists x y, x < m_obs M0 /\ y < m_obs M0
+        /\ labi (m_obs M0) (d_steps d') j x = s_c1 t /\ labi (m_obs M0) (d_steps d') j y = s_c2 t
+        /\ f_ltb F (s_dis t) (dcell KF M0 x y) = false).
+Proof.
+  intros Hn32 Hrun HM0 Hn1 Hok Hfin.
+  destruct (lift_list Hok) as (m1 & Hm1).
+  pose proof (@order_only sub T g (fun _ => True) FS F p
+                (fun x y _ _ => eq_refl) (fun x y _ _ => eq_refl) (conj I eq_refl) (conj I eq_refl)
+                a Single m1 n (st_new sub) (d_new sub 0) s d (or_introl eq_refl)
+                ltac:(apply Forall_forall; intros; exact I)) as Hoo.
+  rewrite Hm1, Hrun in Hoo. cbn [out_of] in Hoo.
+  destruct (run_with FS p a Single (st_new sub) (d_new sub 0) m1 n) as [[[ss ds] ms]| |] eqn:Hrun1;
+    cbn [out_of map_out] in Hoo; try discriminate.
+  injection Hoo as Hd Hm.
+  assert (HM1 : exists M1, prologue p m1 n = Ok M1 /\ M0 = {| m_data := map g (m_data M1); m_obs := m_obs M1 |}).
+  { unfold prologue in HM0 |- *. rewrite <- Hm1, map_length in HM0.
+    destruct (shape_check p n (N.of_nat (length m1))) as [q| |]; cbn [bind] in *; try discriminate.
+    destruct (obs_to_nat q) as [q'| |]; cbn [bind] in *; try discriminate.
+    eexists. split; [reflexivity|]. inversion HM0; subst. cbn [m_data m_obs]. reflexivity. }
+  destruct HM1 as (M1 & HM1 & HM01).
+  assert (Hobs : m_obs M0 = m_obs M1) by (rewrite HM01; reflexivity).
+  assert (Hfin1 : Forall (fun v => f_ltb FS v (f_inf FS) = true) m1).
+  { rewrite Forall_forall in Hfin |- *. intros v Hv. apply (Hfin (g v)). rewrite <- Hm1. apply in_map. exact Hv. }
+  destruct (@single_replay_greedy sub FS p FS_irrefl FS_trans FS_negtrans KS_eqb_nlt FS_eqb_refl a
+              (st_new sub) (d_new sub 0) m1 n ss ds ms M1 Hn32 Hrun1 HM1 ltac:(lia) Hfin1) as [G1 G2].
+  assert (Hsteps : d_steps d' = map (map_step g) (d_steps ds)) by (rewrite Hd; reflexivity).
+  split.
+  - intros j t Ht x y Hx Hy Hne. rewrite Hsteps, nth_error_map in Ht.
+    destruct (nth_error (d_steps ds) j) as [t0|] eqn:E0; [|discriminate]. inversion Ht; subst t. cbn [map_step s_dis].
+    rewrite HM01, dcell_map. rewrite Hsteps, !labi_map, Hobs in Hne.
+    exact (G1 j t0 E0 x y ltac:(lia) ltac:(lia) Hne).
+  - intros Hstrict j t Ht.
+    assert (Hstrict1 : strictly FS (heights ds)).
+    { intros i k a0 b0 Hik Ha Hb. apply (Hstrict i k (g a0) (g b0) Hik);
+        unfold heights; rewrite Hsteps, map_map, nth_error_map; unfold heights in Ha, Hb; rewrite nth_error_map in Ha, Hb.
+      - destruct (nth_error (d_steps ds) i); [|discriminate]. inversion Ha; subst. reflexivity.
+      - destruct (nth_error (d_steps ds) k); [|discriminate]. inversion Hb; subst. reflexivity. }
+    rewrite Hsteps, nth_error_map in Ht.
+    destruct (nth_error (d_steps ds) j) as [t0|] eqn:E0; [|discriminate]. inversion Ht; subst t. cbn [map_step s_dis s_c1 s_c2].
+    destruct (G2 Hstrict1 j t0 E0) as (x & y & Hx & Hy & Lx & Ly & Hd').
+    exists x, y. rewrite Hsteps, !labi_map, Hobs. split; [lia|]. split; [lia|]. split; [exact Lx|]. split; [exact Ly|].
+    rewrite HM01, dcell_map. exact Hd'.
 Qed.
 
 End Sub.
